@@ -100,6 +100,10 @@ class C30(core.Check):
             c(view=[50, 40, 100, 90, False], stmt={'k': 'paint', 'x': 5, 'y': 5, 'c': 2}),
             c(view=[50, 40, 100, 90, True], stmt={'k': 'draw', 's': 'BM60,50 U30 R80 D100 L200 E20 F9'}),
             c(stmt={'k': 'view', 'x0': 10, 'y0': 10, 'x1': 100, 'y1': 100, 'screen': True, 'fill': 2, 'border': 3}),
+            # omitted fill / border on a non-blank screen (D30a: they were drawn in attribute 0)
+            c(bg=2, stmt={'k': 'view', 'x0': 10, 'y0': 10, 'x1': 100, 'y1': 100, 'screen': False, 'fill': None, 'border': None}),
+            c(bg=2, stmt={'k': 'view', 'x0': 10, 'y0': 10, 'x1': 100, 'y1': 100, 'screen': True, 'fill': 1, 'border': None}),
+            c(bg=3, stmt={'k': 'view', 'x0': 100, 'y0': 90, 'x1': 20, 'y1': 30, 'screen': False, 'fill': None, 'border': 1}),
             c(stmt={'k': 'view', 'x0': 0, 'y0': 0, 'x1': 319, 'y1': 199, 'screen': False, 'fill': 1, 'border': 2}),
             c(stmt={'k': 'view', 'x0': 10, 'y0': 10, 'x1': 400, 'y1': 100, 'screen': False, 'fill': 1, 'border': 2}),
             c(screen=7, apage=1, vpage=0, stmt={'k': 'line', 'x0': 0, 'y0': 0, 'x1': 319, 'y1': 199, 'c': 5,
@@ -655,6 +659,22 @@ class C30(core.Check):
         x0, y0, x1, y1 = info['rect']
         if case['stmt']['k'] in ('view', 'view0'):
             x0, y0, x1, y1 = 0, 0, info['w'] - 1, info['h'] - 1
+            st = case['stmt']
+            if st['k'] == 'view' and all(isinstance(st[c], int) for c in ('x0', 'y0', 'x1', 'y1')):
+                # an omitted fill leaves the inside of the new viewport alone, an omitted border its outside (D30a)
+                a0, a1 = sorted((st['x0'], st['x1']))
+                b0, b1 = sorted((st['y0'], st['y1']))
+                for (y, x, v) in diffs[ap]:
+                    inside = a0 <= x <= a1 and b0 <= y <= b1
+                    # (with swapped corners the code draws the frame x0-1,y0-1,x1+1,y1+1 inside the viewport)
+                    frame = st.get('border') is not None and (
+                        x in (st['x0'] - 1, st['x1'] + 1) or y in (st['y0'] - 1, st['y1'] + 1))
+                    if inside and st.get('fill') is None and not frame:
+                        return 'pixel (%d,%d) inside the new viewport changed to %d by %s, which has no fill argument' % (
+                            x, y, v, self.stmt_text(st))
+                    if not inside and st.get('border') is None:
+                        return 'pixel (%d,%d) outside the new viewport changed to %d by %s, which has no border argument' % (
+                            x, y, v, self.stmt_text(st))
         for (y, x, v) in diffs[ap]:
             if not (x0 <= x <= x1 and y0 <= y <= y1):
                 return 'pixel (%d,%d) outside the viewport (%d,%d)-(%d,%d) changed to %d by %s' % (
